@@ -14,8 +14,14 @@ fn harness_fail(res: &RunResult) -> Option<String> {
     if res.timed_out || res.sched.deadlock {
         Some("run timed out or deadlocked".into())
     } else {
-        res.build_error.as_ref().map(|e| format!("mock construction failed: {e}"))
+        None
     }
+}
+
+/// The generators only emit configurations the reference model calls consistent: a mock that cannot
+/// be built from one is a violation of the property whose world this is, not a harness problem.
+fn unconstructible(prop: &str, res: &RunResult) -> Option<Violation> {
+    res.build_error.as_ref().map(|e| v(prop, "consistent-configuration-is-constructible", "Unimock::new", format!("Unimock::new panicked on a consistent clause set: {e}")))
 }
 
 fn seq_sched() -> SchedSpec {
@@ -184,6 +190,9 @@ pub fn check_c15(scn: &Scenario) -> Checked {
     if let Some(e) = harness_fail(&res) {
         return Checked { violations: vec![], stats, harness_error: Some(e) };
     }
+    if let Some(viol) = unconstructible(&scn.prop, &res) {
+        return Checked { violations: vec![viol], stats, harness_error: None };
+    }
     let mut violations: Vec<Violation> = vec![];
     let provided_all: Vec<M> = FAMILIES.iter().flat_map(|f| f.0.iter().copied()).collect();
     let probe = |st: &mut RunStats, k: &str| *st.probes.entry(k.to_string()).or_default() += 1;
@@ -285,6 +294,9 @@ pub fn check_c15(scn: &Scenario) -> Checked {
     stats.extra_runs += 1;
     if let Some(e) = harness_fail(&res_b) {
         return Checked { violations, stats, harness_error: Some(format!("twin: {e}")) };
+    }
+    if let Some(viol) = unconstructible(&scn.prop, &res_b) {
+        return Checked { violations: vec![viol], stats, harness_error: None };
     }
     for (bi, cid) in &pairs {
         let a = &res.log.calls[*cid as usize];
@@ -541,6 +553,9 @@ pub fn check_c16(scn: &Scenario) -> Checked {
     if let Some(e) = harness_fail(&res) {
         return Checked { violations: vec![], stats, harness_error: Some(e) };
     }
+    if let Some(viol) = unconstructible(&scn.prop, &res) {
+        return Checked { violations: vec![viol], stats, harness_error: None };
+    }
     let mut violations: Vec<Violation> = vec![];
     let flat = scn.config.flatten();
     let probe = |st: &mut RunStats, k: &str| *st.probes.entry(k.to_string()).or_default() += 1;
@@ -577,7 +592,11 @@ pub fn check_c16(scn: &Scenario) -> Checked {
             violations.push(v("C16", "arguments-in-order", key.clone(), format!("called with ({},{}) but the real function received ({},{})", c.x, c.y, p.x, p.y)));
         }
         let consuming = matches!(info.recv, Recv::Val | Recv::Rc);
-        if p.finished && c.outcome != Some(Outcome::Value(VAL_PROG | p.inv)) && !(consuming && matches!(c.outcome, Some(Outcome::MockPanic(_)))) {
+        // a consuming real function usually drops the instance, which verifies it inside the call (a
+        // verification panic is then the call's legitimate outcome); `real_vu` with an odd argument
+        // lets the instance outlive the call instead - nothing may be verified before it returns
+        let drops_inside = consuming && !(c.m == M::Vu && c.x & 1 == 1);
+        if p.finished && c.outcome != Some(Outcome::Value(VAL_PROG | p.inv)) && !(drops_inside && matches!(c.outcome, Some(Outcome::MockPanic(_)))) {
             violations.push(v("C16", "result-returned-unchanged", key.clone(), format!("the real function returned {:#x}, the caller got {:?}", VAL_PROG | p.inv, c.outcome)));
         }
         probe(&mut stats, "call_resolved_to_real_function");
@@ -689,6 +708,9 @@ pub fn check_c16(scn: &Scenario) -> Checked {
     if let Some(e) = harness_fail(&res_b) {
         return Checked { violations, stats, harness_error: Some(format!("twin: {e}")) };
     }
+    if let Some(viol) = unconstructible(&scn.prop, &res_b) {
+        return Checked { violations: vec![viol], stats, harness_error: None };
+    }
     for (bi, c) in &pairs {
         // calls the real function made back into the mock, side by side
         let pa = res.log.progs.iter().find(|p| Some(p.inv) == c.prog);
@@ -758,7 +780,7 @@ fn canon_counts(s: &Snap) -> (Vec<(M, Vec<u32>)>, u32) {
     (s.counts.clone(), s.ordered)
 }
 
-const C18_POOL: &[M] = &[M::A0, M::A1, M::B0, M::B2, M::B3, M::S0, M::S1, M::S2, M::GenU8, M::GenU16, M::GmU8, M::GmU16];
+const C18_POOL: &[M] = &[M::A0, M::A1, M::B0, M::B2, M::B3, M::S0, M::S1, M::S2, M::GenU8, M::GenU16, M::GmU8, M::GmU16, M::GiU8, M::GiU16];
 
 /// methods that are interchangeable (same signature, same capabilities): relabelling a scenario
 /// along such a pair changes nothing but the (arbitrary) order of the internal method table
@@ -899,6 +921,9 @@ pub fn check_c18(scn: &Scenario) -> Checked {
     if let Some(e) = harness_fail(&res) {
         return Checked { violations: vec![], stats, harness_error: Some(e) };
     }
+    if let Some(viol) = unconstructible(&scn.prop, &res) {
+        return Checked { violations: vec![viol], stats, harness_error: None };
+    }
     let mut violations: Vec<Violation> = vec![];
     let probe = |st: &mut RunStats, k: &str| *st.probes.entry(k.to_string()).or_default() += 1;
     let flat = scn.config.flatten();
@@ -911,7 +936,7 @@ pub fn check_c18(scn: &Scenario) -> Checked {
             }
         }
     }
-    if res.log.calls.iter().any(|c| matches!(c.m, M::GenU8 | M::GenU16 | M::GmU8 | M::GmU16) && matches!(c.outcome, Some(Outcome::Value(_)))) {
+    if res.log.calls.iter().any(|c| matches!(c.m, M::GenU8 | M::GenU16 | M::GmU8 | M::GmU16 | M::GiU8 | M::GiU16) && matches!(c.outcome, Some(Outcome::Value(_)))) {
         probe(&mut stats, "generic_instantiation_answered");
     }
     let mut rng = Rng::new(scn.knob("transform_seed").unwrap_or(1) as u64);
@@ -1034,6 +1059,9 @@ pub fn check_c18(scn: &Scenario) -> Checked {
     stats.extra_runs += 1;
     if let Some(e) = harness_fail(&res_b) {
         return Checked { violations, stats, harness_error: Some(format!("twin: {e}")) };
+    }
+    if let Some(viol) = unconstructible(&scn.prop, &res_b) {
+        return Checked { violations: vec![viol], stats, harness_error: None };
     }
     let mut ob = observe(&b, &res_b, 0, &b.config);
     if let Some((m1, m2)) = relabel {
